@@ -141,7 +141,9 @@ def scenario(rec, variant, image):
         # a homogeneous region: constant image; supplied levels coincide (intensity range zero)
         field.data[...] = 3.0
         levels = (3.0, 3.0) if image == "flat" else (2.5, 2.5)
-    kw = {"fixed": dict(vmin=levels[0], vmax=levels[1]), "auto": dict(vmin=None, vmax=None),
+    # "auto": both levels automatic, or (variant 1) the outside level supplied and only the inside level automatic
+    auto_kw = dict(vmin=None, vmax=None) if variant != 1 else dict(vmin=levels[0], vmax=None)
+    kw = {"fixed": dict(vmin=levels[0], vmax=levels[1]), "auto": auto_kw,
           "adjust": dict(vmin=levels[0], vmax=levels[1], adjust_values=True),
           "autoadjust": dict(vmin=None, vmax=None, adjust_values=True)}[req["levels"]]
     return grid, truth, cand, field, kw, levels
@@ -305,11 +307,18 @@ def run_case(rec, variant, image):
         w0 = promoted.interface_width if promoted.interface_width is not None else grid.typical_discretization
         promoted = promoted.copy()
         promoted.interface_width = w0
-        lv = (lambda d: levels) if req["levels"] == "fixed" else (lambda d: (float(d.min()), float(d.max())))
+        lv = (lambda d: levels) if req["levels"] == "fixed" else \
+             (lambda d: (float(d.min()) if kw["vmin"] is None else kw["vmin"], float(d.max()) if kw["vmax"] is None else kw["vmax"]))
         dev = region_and_deviation(grid, promoted, w0, field, lv)
         d0, d1 = dev(promoted), dev(res)
         if d1 > d0 * (1 + 1e-9) + 1e-12:
             fails.append(f"squared deviation over the fitted region grew: {d0!r} -> {d1!r}")
+        # what the solver is handed IS that objective: the sum of squares of its residuals at the start equals the squared
+        # deviation of the (promoted) candidate over the region, with the levels as documented -- no weights, no other levels
+        if proxy.calls and rec["width"] != "zero" and not (np.any(np.isnan(field.data))):
+            c0 = proxy.calls[0]["c0"]
+            if abs(c0 - d0) > 1e-9 * max(d0, 1e-300) + 1e-12:
+                fails.append(f"objective handed to the solver ({c0!r} at the start) is not the squared deviation over the fitted region ({d0!r})")
     # ---- fixed point
     if image == "fixedpoint" and req["levels"] in ("fixed", "adjust"):   # the supplied levels are the rendering levels
         ref = cand0 if isinstance(cand0, DiffuseDroplet) else DiffuseDroplet.from_droplet(cand0)
